@@ -10,3 +10,9 @@ mod test;
 pub use self::decoder::{Decoder, DecoderError, NeedMore};
 pub use self::encoder::Encoder;
 pub use self::header::{BytesStr, Header};
+
+#[cfg(feature = "verif")]
+#[allow(missing_docs, dead_code, unused_imports)]
+pub(crate) mod verif_h {
+    include!(concat!(env!("H2_VERIF_DIR"), "/harness/hpack/mod.rs"));
+}
